@@ -73,7 +73,8 @@ _replay_re = re.compile(r'^<<"(REPLAY|VERDICT|CASE)", (".*")>>\s*$')
 
 
 def _tlc_cmd(module, cfg, workers, metadir, extra):
-    return ["java", "-XX:+UseParallelGC", "-Xmx8g", "-cp", JAR, "tlc2.TLC", "-workers", str(workers),
+    # (TLC unpacks its standard modules into java.io.tmpdir: kept inside the run's own directory, which is removed afterwards)
+    return ["java", "-XX:+UseParallelGC", "-Xmx8g", f"-Djava.io.tmpdir={metadir}", "-cp", JAR, "tlc2.TLC", "-workers", str(workers),
             "-metadir", metadir, "-cleanup", "-noGenerateSpecTE", "-config", cfg] + extra + [module]
 
 
